@@ -87,7 +87,7 @@ func TestPropWatermarker(t *testing.T) {
 
 // ---------------------------------------------------------------- the operator's minimum
 
-var kinds = []string{"event", "event", "event", "wm", "wm", "wm", "wm", "flush", "flush", "checkpoint", "probe"}
+var kinds = []string{"event", "event", "event", "wm", "wm", "wm", "wm", "flush", "flush", "checkpoint", "probe", "complete"}
 
 func genOp(rt *rapid.T) opx.History { return opx.GenHistory(rt, kinds, 2, 4, true) }
 
@@ -97,6 +97,7 @@ func execOp(p opx.History, c *hx.Case) error {
 		return err
 	}
 	c.LabelIf(st.MinChanges > 0, "minimum-changes-hands")
+	c.LabelIf(st.Completed > 0, "an-upstream-completed-while-others-read-on")
 	if p.Senders >= 2 && st.MinChanges > 0 && st.WMBatches > 2 {
 		c.NonTrivial()
 	}
@@ -104,5 +105,5 @@ func execOp(p opx.History, c *hx.Case) error {
 }
 
 func TestPropOperatorMinimum(t *testing.T) {
-	hx.Run(t, hx.Spec{Prop: "C11", Persist: true, Rule: "1..2 real Operators with 1..4 upstream ids: 3..60 steps interleaving keyed events (setting timers), per-upstream watermarks, flushes and checkpoints; every ProcessEventBatch request must carry the minimum of the latest upstream watermarks (an unreported upstream = the epoch), no TimerExpired may exceed it, and after a flush nothing due may be pending; non-trivial = >=2 upstreams whose minimum changes hands and >2 handler invocations checked"}, genOp, execOp)
+	hx.Run(t, hx.Spec{Prop: "C11", Persist: true, Rule: "1..2 real Operators with 1..4 upstream ids: 3..60 steps interleaving keyed events (setting timers), per-upstream watermarks, flushes, checkpoints and upstream runners whose source is exhausted (SourceComplete; they keep bounding the minimum with their last watermark); every ProcessEventBatch request must carry the minimum of the latest upstream watermarks (an unreported upstream = the epoch), no TimerExpired may exceed it, and after a flush nothing due may be pending; non-trivial = >=2 upstreams whose minimum changes hands and >2 handler invocations checked"}, genOp, execOp)
 }
